@@ -178,7 +178,38 @@ def two_level(mat, ctx):
     ctx.sample({"kind": "two-level", "level0_enzyme": A, "level1_enzyme": B, "level0_products": n1}, cap=1)
 
 
+_earlier = []     # (label, product, snapshot taken right after it was assembled) of the last few products of this worker
+
+
+def _remember(label, product):
+    _earlier.append((label, product, asmmon.deep_snapshot(product)))
+    del _earlier[:-6]
+
+
+def _earlier_products_untouched(ctx):
+    """a finished product is a record of its own: later assemblies (in particular those that re-use it as a module) must
+    not rewrite its comment, annotations or features"""
+    for label, product, snap in _earlier:
+        ctx.count("c09_earlier_products_rechecked")
+        now = asmmon.deep_snapshot(product)
+        if now != snap:
+            ctx.violation("earlier-product-changed-by-later-assembly:" + ",".join(asmmon.snapshot_diff(snap, now))[:80],
+                          "the product of an earlier assembly (%s) was altered by a later one: %s" % (label, asmmon.snapshot_diff(snap, now)))
+            _earlier.remove((label, product, snap))
+            return
+
+
 def execute(mat, ctx):
+    try:
+        _execute(mat, ctx)
+    finally:
+        _earlier_products_untouched(ctx)
+        p = getattr(_mon.last, "product", None) if _mon is not None and _mon.last is not None else None
+        if p is not None and not any(p is q for _, q, _ in _earlier):
+            _remember(str(mat.get("id") or mat.get("kind")), p)
+
+
+def _execute(mat, ctx):
     ctx.count("evaluations")
     before = ctx.counters["c09_genbank_roundtrips"]
     if mat["kind"] == "assembly-mat":
